@@ -16,7 +16,8 @@ func init() {
 			"(R2) closeAll, under the cache lock, closes every cached connection and marks every region of it unavailable with no client; " +
 			"(R3) both waits of getRegionAndClientForRPC have a <-c.done case returning ErrClientClosed; reestablishRegion tests c.done before doing anything; lookupRegion/lookupAllRegions return on ErrClientClosed before the back-off; establishRegion returns on it without releasing waiters; " +
 			"(R4) no connection is created after Close: the connection factory runs only in clientRegionCache.put, and there it is dominated - inside the same critical section - by the false edge of a closed flag that closeAll sets under that lock before closing the connections; the establisher handles the refusal by returning; " +
-			"(R5) connections are handed calls only after getRegionAndClientForRPC / findClients succeeded (so every later call sees the closed signal first).",
+			"(R5) connections are handed calls only after getRegionAndClientForRPC / findClients succeeded (so every later call sees the closed signal first)." +
+			" Added after the seeded-change rounds: (R2) entries leave the connection cache only in clientRegionCache.clientDown and client.clientDown is called only where the connection was observed dead (shared with C20.R3): a forgotten live connection is never closed by closeAll; (R3) an establisher is started through reestablishRegion or directly after a lookup of the same function succeeded.",
 		Residue:   "goroutine count at quiescence; promptness (real time); the admin client (its interface exposes no Close)",
 		Technique: "once/defer idioms, who-may-call tables, dominance under a lock (lock-set analysis), path search",
 		Run:       runC19,
